@@ -70,6 +70,14 @@ func TdxValidate(ctx context.Context, attestation []byte, opts *TdxValidateOptio
 			return fmt.Errorf("failed to unmarshal endorsement: %v", err)
 		}
 	}
+	// The policy below is derived from the endorsement's contents, so first check that the
+	// endorsement is signed by a key that chains to the caller's roots of trust at the caller's time.
+	if err := verify.EndorsementProto(endorsement, &verify.Options{
+		RootsOfTrust: opts.RootsOfTrust,
+		Now:          opts.Now,
+	}); err != nil {
+		return fmt.Errorf("failed to verify endorsement: %v", err)
+	}
 	policy, err := TdxPolicy(ctx, endorsement, &TdxPolicyOptions{
 		Base:      opts.BasePolicy,
 		Overwrite: opts.Overwrite,
